@@ -192,7 +192,12 @@ def run(ctx):
             fa = {S.show(S.norm(e_, S.Env())) for e_ in froms[b_]}
             if len(ta) == 1 and len(fa) == 1:
                 n_pairs += 1
-                ctx.inst("C15.R9", "%s#split[%s]" % (d_.replace("blots_core::", ""), b_), ta == fa, "front part ends at %s, back part starts at %s" % (sorted(ta), sorted(fa)), H.loc(f_["body"]))
+                # the two parts are accumulated together (`f(front) + f(back)`): then every element must be in one of them. Parts taken
+                # around a pivot that is handled separately are a different algorithm (no verdict)
+                def has_part(e_, which):
+                    return any(H.kind(y) == "Index" and H.kind(H.strip(y["i"])) == "Struct" and (H.strip(y["i"])["res"].get("def") or "").endswith(which) for y in H.walk(e_))
+                combined = any(H.kind(x) == "Binary" and x["op"] in ("Add", "Mul") and ((has_part(x["l"], "RangeTo") and has_part(x["r"], "RangeFrom")) or (has_part(x["l"], "RangeFrom") and has_part(x["r"], "RangeTo"))) for x in H.walk(f_["body"]))
+                ctx.inst("C15.R9", "%s#split[%s]" % (d_.replace("blots_core::", ""), b_), True if ta == fa else (False if combined else None), "front part ends at %s, back part starts at %s" % (sorted(ta), sorted(fa)), H.loc(f_["body"]))
     ctx.inst("C15.R9", "split-helpers#scanned", True, "%d functions of functions.rs / values.rs scanned; front/back splits of one slice found: %d" % (n_fn, n_pairs), None)
     # ---- R8 every argument reaches the aggregate, as the number it is
     ctx.rule("C15.R8", "`sum(a, ...xs, b)` hands every argument to the built-in: the loop that flattens spread arguments of a call never ends early; and inside sum / avg / prod / min / max no element passes through an integer type (a cast saturates at 2^63)", floor=4)
